@@ -109,6 +109,24 @@ def check_guard_types(F, rep):
         rep.ob("GUARD-TYPE", a["path"].split("::")[-1], ok and not cloneable and not byval,
                "fields %s; Clone/Copy impls %s; finishing methods taking a reference %s" % (fields, cloneable, byval), "%s" % a["path"])
     rep.floor("guard types", n, 2)
+    # GUARD-SIG: what a chaining method hands back.  The guard's second type parameter is the type the buffer is *owned* as (what restore
+    # converts back to); a chain step changes the current type and the kind of guard, never the original: Guard<'a, T, U>::then_into_*::<C>()
+    # -> Guard'<'a, C, U>, into_*_guard -> Guard'<'a, T, U>, with Guard' the guard kind the method is named after.
+    KIND = {"then_into_color_mut": ("FromColorMutGuard", "C"), "then_into_color_unclamped_mut": ("FromColorUnclampedMutGuard", "C"),
+            "into_clamped_guard": ("FromColorMutGuard", "T"), "into_unclamped_guard": ("FromColorUnclampedMutGuard", "T")}
+    m = 0
+    for b in F.bodies:
+        im = b.get("_impl")
+        if im is None or not (im.get("self_adt") or "").endswith("MutGuard") or b["name"] not in KIND or im.get("trait"):
+            continue
+        m += 1
+        out = F.ty(b["body"]) or ""
+        gk, cur = KIND[b["name"]]
+        mt = re.match(r"^convert::\w+::(\w+)<'\w+, (.+), (\w+)>$", out)
+        ok = bool(mt) and mt.group(1) == gk and mt.group(2) == cur and mt.group(3) == "U"
+        rep.ob("GUARD-SIG", "%s::%s" % (im["self_s"].split("::")[-1], b["name"]), ok,
+               "returns %s (expected %s<'a, %s, U>: the original type U is what the buffer is owned as)" % (out, gk, cur), F.loc(b))
+    rep.floor("guard chaining methods", m, 6)
 
 
 def run(F, rep, tier="quick", extra=None, only=None):
